@@ -181,6 +181,50 @@ func runRaceWork(wk *raceWork) (res raceWorkResult) {
 	return
 }
 
+// coldWork: a FRESH process whose very first use of a codec is made by several goroutines at the same time (lazily built
+// shared tables, once-only initialisers, pools): no sequential warm-up run precedes the concurrent one
+type coldWork struct {
+	Pipes  []racePipe `json:"pipes"`
+	Seed   int64      `json:"seed"`
+	Expect []string   `json:"expected_stream_sha256"` // computed by the parent (alone, sequentially)
+}
+
+func runColdWork(wk *coldWork) (res raceWorkResult) {
+	var events int64
+	datas := make([][]byte, len(wk.Pipes))
+	for i := range wk.Pipes {
+		datas[i] = gen.Make(wk.Pipes[i].Shape, wk.Pipes[i].Size, wk.Seed+int64(i))
+	}
+	start := make(chan struct{})
+	var wg sync.WaitGroup
+	var mu sync.Mutex
+	for i := range wk.Pipes {
+		wg.Add(1)
+		go func(i int) {
+			defer wg.Done()
+			<-start
+			s, b, err := runPipe(&wk.Pipes[i], datas[i], &events)
+			mu.Lock()
+			defer mu.Unlock()
+			res.Runs++
+			if err != nil {
+				res.Errors = append(res.Errors, fmt.Sprintf("cold pipeline %d (%v): %v", i, wk.Pipes[i].Cfg, err))
+				return
+			}
+			if h := core.Sha256Hex(s); i < len(wk.Expect) && wk.Expect[i] != "" && h != wk.Expect[i] {
+				res.Mismatches = append(res.Mismatches, fmt.Sprintf("cold pipeline %d (%v): the stream produced while other goroutines made their first use of the codec differs from the stream produced alone", i, wk.Pipes[i].Cfg))
+			}
+			if !bytes.Equal(b, datas[i]) {
+				res.Mismatches = append(res.Mismatches, fmt.Sprintf("cold pipeline %d (%v): decompressed bytes differ from the original", i, wk.Pipes[i].Cfg))
+			}
+		}(i)
+	}
+	close(start)
+	wg.Wait()
+	res.Events = atomic.LoadInt64(&events)
+	return
+}
+
 var raceBlockRe = regexp.MustCompile(`(?s)WARNING: DATA RACE\n(.*?)\n==================`)
 var lineNoRe = regexp.MustCompile(`:\d+( \+0x[0-9a-f]+)?`)
 var addrRe = regexp.MustCompile(`0x[0-9a-f]+`)
@@ -251,12 +295,19 @@ func init() {
 		}
 		return runRaceWork(&wk)
 	})
+	core.RegisterChild("c18cold", func(raw json.RawMessage) any {
+		var wk coldWork
+		if err := json.Unmarshal(raw, &wk); err != nil {
+			return raceWorkResult{Errors: []string{err.Error()}}
+		}
+		return runColdWork(&wk)
+	})
 	register("C18", "exploration", c18)
 }
 
 func c18(run *core.Run, replay string) {
 	run.SetRule("race-detector build of the harness and of /repo/v2 (go build -race -tags verif); K concurrent compress+decompress pipelines covering all 19 transforms and 9 entropy codecs (shared static tables in use at once), " +
-		"jobs 1..16 inside each, a > 4 MiB BWT block decoded with several jobs (parallel inverse BWT workers), listeners attached with verbosity 5, scheduling perturbed through the hand-off hooks (yields / sleeps), repeated rounds; " +
+		"jobs 1..16 inside each, a > 4 MiB BWT block decoded with several jobs (parallel inverse BWT workers), listeners attached with verbosity 5, one FRESH process per codec whose first use of that codec is made by 4 goroutines at once (lazy initialisers), scheduling perturbed through the hand-off hooks (yields / sleeps), repeated rounds; " +
 		"every stream and every decompressed output is compared with the isolated run; the race log (GORACE halt_on_error=0 log_path) is parsed, reports de-duplicated by stack pair and attributed: a report with a frame in kanzi-go/v2 is a violation. " +
 		"non-trivial = a pipeline run with jobs > 1 or next to other pipelines; distinct = (pipeline config, round)")
 	run.Assume("the race detector only sees executed interleavings; reports whose frames are all in the harness would be harness bugs and are listed separately")
@@ -338,6 +389,64 @@ func c18(run *core.Run, replay string) {
 			run.Violate("C18 pipeline-error", e, wk)
 		}
 	}
+	// cold starts: one fresh process per codec; its first use of the codec is made by 4 goroutines at once
+	var colds []*coldWork
+	mkCold := func(t, e string, shape string, size int) {
+		cw := &coldWork{Seed: S + int64(len(colds))}
+		for k := 0; k < 4; k++ {
+			cw.Pipes = append(cw.Pipes, racePipe{Cfg: kz.Cfg{Transform: t, Entropy: e, BlockSize: 8192, Jobs: uint(1 + 2*(k%2)), Checksum: 32}, Shape: shape, Size: size + 8192*(k%2), DecJ: uint(1 + k%3)})
+		}
+		colds = append(colds, cw)
+	}
+	for i, t := range kz.Transforms {
+		mkCold(t, "NONE", shapes[i%len(shapes)], 40000)
+	}
+	for _, e := range kz.Entropies {
+		mkCold("NONE", e, "text", 24000)
+	}
+	for i, lc := range kz.LevelChains {
+		mkCold(lc[0], lc[1], shapes[(i*3)%len(shapes)], 24000)
+	}
+	for _, cw := range colds {
+		// expected streams: the same pipelines run alone, one after the other, in this (warm) process
+		var ev int64
+		for i := range cw.Pipes {
+			st, _, err := runPipe(&cw.Pipes[i], gen.Make(cw.Pipes[i].Shape, cw.Pipes[i].Size, cw.Seed+int64(i)), &ev)
+			if err != nil {
+				cw.Expect = append(cw.Expect, "")
+			} else {
+				cw.Expect = append(cw.Expect, core.Sha256Hex(st))
+			}
+		}
+	}
+	var cmu sync.Mutex
+	core.ParallelDo(len(colds), 6, func(i int) {
+		rs := core.RunIsolated("c18cold", []any{colds[i]}, core.IsoOpts{Workers: 1, WallBudget: 20 * time.Minute,
+			Env: []string{"GORACE=halt_on_error=0 history_size=4 log_path=" + prefix + "log"}})
+		cmu.Lock()
+		defer cmu.Unlock()
+		cr := rs[0]
+		if cr.Status == "crash" {
+			run.Violate("C18 process-death phase=cold-start", core.Trunc(cr.Detail, 1500), colds[i])
+			return
+		}
+		if cr.Status != "ok" {
+			run.Inconclusive("cold-start workload " + cr.Status)
+			return
+		}
+		var res raceWorkResult
+		json.Unmarshal(cr.Out, &res)
+		run.Eval(res.Runs)
+		run.Count("cold_start_processes", 1)
+		run.Count("cold_start_pipeline_runs", res.Runs)
+		run.Nontrivial(fmt.Sprintf("cold|%v", colds[i].Pipes[0].Cfg))
+		for _, m := range res.Mismatches {
+			run.Violate("C18 output-differs-under-concurrency phase=cold-start", m, colds[i])
+		}
+		for _, e := range res.Errors {
+			run.Violate("C18 pipeline-error phase=cold-start", e, colds[i])
+		}
+	})
 	reports, total := parseRaceLogs(prefix)
 	run.Count("race_reports_total", total)
 	run.Count("race_reports_distinct", len(reports))
